@@ -1884,6 +1884,15 @@ write_module(ostream &out, ostream *out_h, InterrogateModuleDef *def) {
       << "\n";
 }
 /**
+ * Orders remaps by signature: used wherever a set of remaps, which is sorted
+ * by address, is written out.
+ */
+static bool
+remap_signature_less(const FunctionRemap *a, const FunctionRemap *b) {
+  return a->_function_signature < b->_function_signature;
+}
+
+/**
 
  */
 void InterfaceMakerPythonNative::
@@ -2148,7 +2157,8 @@ write_module_class(ostream &out, Object *obj) {
       // functions with different names mapped to the same slot.
       string fname;
       if (def._remaps.size() > 0) {
-        const FunctionRemap *first_remap = *def._remaps.begin();
+        const FunctionRemap *first_remap =
+          *std::min_element(def._remaps.begin(), def._remaps.end(), remap_signature_less);
         fname = first_remap->_cppfunc->get_simple_name();
       }
 
@@ -2891,6 +2901,8 @@ write_module_class(ostream &out, Object *obj) {
 
           std::vector<FunctionRemap *> remaps;
           remaps.insert(remaps.end(), def._remaps.begin(), def._remaps.end());
+          // The set is ordered by address; don't let that show in the output.
+          std::sort(remaps.begin(), remaps.end(), remap_signature_less);
           string expected_params;
           write_function_for_name(out, obj, remaps, fname, expected_params, true, AT_keyword_args, RF_pyobject | RF_err_null);
         }
@@ -2902,6 +2914,8 @@ write_module_class(ostream &out, Object *obj) {
 
         std::vector<FunctionRemap *> remaps;
         remaps.insert(remaps.end(), def._remaps.begin(), def._remaps.end());
+        // The set is ordered by address; don't let that show in the output.
+        std::sort(remaps.begin(), remaps.end(), remap_signature_less);
         string expected_params;
         write_function_for_name(out, obj, remaps, fname, expected_params, true, AT_keyword_args, RF_pyobject | RF_err_null);
         break;
